@@ -418,6 +418,26 @@ def run_property(ctx, spec):
                 known.setdefault(f["id"], []).append(mm)
             else:
                 viol.append(mm)
+    # the witness of every listed finding is re-executed on the current tree: the KNOWN-FINDING line is printed only while it still fails
+    for f in findings:
+        w = f.get("witness")
+        if not w:
+            continue
+        cargo_build(ctx, w["pkg"])
+        d = os.path.join(WORK, "witness")
+        os.makedirs(d, exist_ok=True)
+        inp, outp = os.path.join(d, f"{f['id']}.in.ndjson"), os.path.join(d, f"{f['id']}.out.ndjson")
+        open(inp, "w").write(json.dumps(w["event"]) + "\n")
+        r = sh([hbin(w["pkg"]), "replay", "--in", inp, "--out", outp])
+        if r.returncode != 0:
+            raise ToolError(f"witness replay of {f['id']} failed: {r.stdout[-500:]}")
+        for ln, exp in tlc_trace_one(w["module"], outp, 600):
+            mm = {"event": json.loads(open(outp).read().splitlines()[ln - 1]), "expected": exp, "stage": "witness",
+                  "tags": sorted(exp.get("bad", [])) if isinstance(exp, dict) else []}
+            if sig_match(f["signature"], mm):
+                known.setdefault(f["id"], []).append(mm)
+            else:
+                viol.append(mm)
     for f in findings:
         if f["id"] in known:
             print(f"KNOWN-FINDING: property={ctx.id} {f['what']} [{len(known[f['id']])} occurrence(s) this run]")
@@ -516,4 +536,4 @@ def setup():
     return 0 if bad == 0 else 2
 
 
-HARNESS_PKGS = ["h_core", "h_schema"]
+HARNESS_PKGS = ["h_core", "h_schema", "h_maxsize", "h_dyn"]
